@@ -29,6 +29,7 @@ fn map_pair<K: Elem, V: Elem>(c: &mut Ctx, tspec: &Spec, sspec: &Spec, rng: &mut
     c.sig_parts(&[1, path, tf.class as u64, (tf.deleted > 0) as u64, (sf.deleted > 0) as u64, (slen > tlen) as u64 + 2 * (slen == tlen) as u64, crate::ctx::prop_salt(K::NAME)]);
     c.bump(["clone_from_source_unallocated", "clone_from_same_buckets", "clone_from_different_buckets"][path as usize]);
     let r0 = elem::reg_counters();
+    let clone_calls0 = crate::fuse::count(crate::fuse::Class::Clone);
     if rng.chance(1, 4) {
         // clone() instead of clone_from
         let fresh = MapC(s.0.clone());
@@ -38,6 +39,9 @@ fn map_pair<K: Elem, V: Elem>(c: &mut Ctx, tspec: &Spec, sspec: &Spec, rng: &mut
     }
     let r1 = elem::reg_counters();
     let per = tracked_per::<K, V>();
+    let clone_calls = crate::fuse::count(crate::fuse::Class::Clone) - clone_calls0;
+    let per_calls = K::COUNTS_CLONE as u64 + V::COUNTS_CLONE as u64;
+    crate::check!(clone_calls == slen * per_calls, "{}: Clone::clone was called {} times for {} entries ({} expected): the copy does not hold independently made clones", what, clone_calls, slen, slen * per_calls);
     crate::check!(r1.cloned - r0.cloned == slen * per, "{}: {} tracked clones were made for {} entries ({} expected)", what, r1.cloned - r0.cloned, slen, slen * per);
     crate::check!(r1.dropped - r0.dropped == tlen * per, "{}: {} old target elements dropped, {} expected (each exactly once)", what, r1.dropped - r0.dropped, tlen * per);
     // equal, both directions, and by contents
